@@ -156,12 +156,15 @@ CLAIMED = {
  "C12": ("Theorem generalize_preserves_all: for ALL 13 Type 2 path operators (incl. the alternating hv/vhcurveto families, rcurveline, rlinecurve) and EVERY "
          "argument list the generaliser accepts, interpreting the generalised commands draws exactly what the interpreter draws for the "
          "original operator — two independent transcriptions (T2OutlineExtractor vs _GeneralizerDecombinerCommandsMap), by induction over the "
-         "argument list. Both transcriptions are tied to the code by "
-         "correspondence over every arity 0..26. On the implementation: an independent Type 2 interpreter written from TN#5177 vs "
+         "argument list. Theorems specialize_keeps_topology / specialize_keeps_fill / specialize_same_endpoint: a transcription of "
+         "specializeCommands phases 1-6 (made-up operators, backward in-place loops, stack bookkeeping, argument swaps), for EVERY maxstack "
+         "and every list of generalised commands, emits commands the interpreter accepts and draws segment for segment the input with moves "
+         "combined (preserveTopology) or the input modulo the five documented merges (fill_eq), ending at the same point. All transcriptions are tied to the code by "
+         "correspondence (every arity 0..26; generalised command lists x maxstack x topology mode). On the implementation: an independent Type 2 interpreter written from TN#5177 vs "
          "T2CharString.draw, specialise/generalise (with and without topology) modulo the fill-preserving equivalence, operand-stack limit and "
          "arities of emitted programs, bytecode compile/decompile, width re-encoding, and desubroutinize / remove_hints / CFF<->CFF2 on corpus "
          "fonts and a generated font whose subroutines mix hints and path (testing). Known finding F14 (CFF->CFF2->CFF raises).",
-         "Rocq proof that generalisation preserves the interpreter's drawing + correspondence of both models + rewrite sweeps"),
+         "Rocq proof that generalisation and specialisation preserve the interpreter's drawing + correspondence of the models + rewrite sweeps"),
  "C05": ("Theorems over exact rationals: the inferred delta computed by iup_segment is, for every coordinate, the one the OpenType "
          "specification defines for points without explicit deltas (a relational specification written from the gvar text, "
          "iup1_meets_spec), never overshoots the reference deltas, and does not depend on the order of the two reference points; for whole "
